@@ -56,6 +56,13 @@ def putMany {K V : Type} [DecidableEq K] (m : K → Option V) (items : List (Lis
     K → Option V :=
   items.foldl (fun m it => putAll m it.1 it.2) m
 
+/-- Content of the cache file: `internal.FileCache` (sync time, profiles, devices). -/
+structure CacheFile where
+  time : Nat
+  profs : List Profile
+  devs : List Device
+deriving DecidableEq, Repr
+
 structure St where
   profiles : Nat → Option Profile
   devices : Nat → Option Device
@@ -65,11 +72,14 @@ structure St where
   idx : Key → Option Nat
   pending : List Cleanup
   /-- content of the cache file: what the last full sync stored -/
-  cache : Option (List Profile × List Device)
+  cache : Option CacheFile
+  /-- `db.syncTime`, the synchronisation point sent with the next partial request;
+  0 is `time.Time{}` -/
+  syncTime : Nat
 
 def init : St :=
   { profiles := fun _ => none, devices := fun _ => none, devIdx := fun _ => none,
-    idx := fun _ => none, pending := [], cache := none }
+    idx := fun _ => none, pending := [], cache := none, syncTime := 0 }
 
 /-- The device `d`, attached to profile `pid`, is reachable under key `k`
 (the read-side re-checks of `ProfileByLinkedIP`, `ProfileByDedicatedIP`, `ProfileByHumanID`). -/
@@ -108,10 +118,16 @@ def setAll (b : St) (ps : List Profile) (ds : List Device) : St :=
     devIdx := putMany b.devIdx (devIdxItems ps),
     idx := putMany b.idx (keyItems (putMany b.devIdx (devIdxItems ps)) ds) }
 
-/-- `Refresh` with a storage response: `setProfiles(profiles, devices, isFullSync)`, and the
-file cache is rewritten on a full sync. -/
-def applySync (s : St) (full : Bool) (ps : List Profile) (ds : List Device) : St :=
-  if full then { setAll (cleared s) ps ds with cache := some (ps, ds) } else setAll s ps ds
+/-- `fetchProfiles`: the synchronisation point sent to the storage — the zero time for a full
+synchronisation, otherwise the sync time of the last response applied (or of the cache loaded). -/
+def reqTime (s : St) (full : Bool) : Nat := if full then 0 else s.syncTime
+
+/-- `Refresh` with a successful storage response carrying sync time `t`:
+`setProfiles(profiles, devices, isFullSync)`, `db.syncTime = resp.SyncTime`, and the file cache is
+rewritten on a full sync.  (A failed storage call returns before any of this: no step.) -/
+def applySync (s : St) (full : Bool) (t : Nat) (ps : List Profile) (ds : List Device) : St :=
+  if full then { setAll (cleared s) ps ds with cache := some ⟨t, ps, ds⟩, syncTime := t }
+  else { setAll s ps ds with syncTime := t }
 
 inductive Res
   | ok (p : Profile) (d : Device)
@@ -198,16 +214,34 @@ def lookupHumanOld (s : St) (pid h : Nat) : Res :=
       | .ok p d => if d.human = h then .ok p d else .devNF
       | r => r
 
+/-! ### Restart from the file cache -/
+
+def fileCacheVersion : Nat := 15
+
+/-- `New` + `loadFileCache`: a fresh database filled from the cache file, unless the file is
+absent, has another version, or holds no profiles or no devices.  The sync time of the cache
+becomes the database's synchronisation point. -/
+def loadCache (version : Nat) (c : Option CacheFile) : St :=
+  match c with
+  | none => init
+  | some f =>
+    if version ≠ fileCacheVersion then { init with cache := c }
+    else if f.profs.length = 0 ∨ f.devs.length = 0 then { init with cache := c }
+    else { setAll init f.profs f.devs with cache := c, syncTime := f.time }
+
 inductive Op
-  | sync (full : Bool) (ps : List Profile) (ds : List Device)
+  | sync (full : Bool) (t : Nat) (ps : List Profile) (ds : List Device)
   | byDev (id : Nat)
   | byKey (k : Key)
   | byHuman (pid h : Nat)
   /-- scheduler: the `i`-th pending clean-up goroutine gets the write lock now -/
   | run (i : Nat)
+  /-- the process is restarted: pending clean-up goroutines die, a new database is opened on the
+  cache file, read as version `v` -/
+  | restart (v : Nat)
 
 def step (s : St) : Op → St
-  | .sync full ps ds => applySync s full ps ds
+  | .sync full t ps ds => applySync s full t ps ds
   | .byDev id => { s with pending := s.pending ++ (findByDev s id).2 }
   | .byKey k => { s with pending := s.pending ++ (lookupKey s k).2 }
   | .byHuman pid h => { s with pending := s.pending ++ (lookupHuman s pid h).2 }
@@ -215,6 +249,7 @@ def step (s : St) : Op → St
     match s.pending[i]? with
     | none => s
     | some c => applyCleanup { s with pending := s.pending.eraseIdx i } c
+  | .restart v => loadCache v s.cache
 
 def run (ops : List Op) : St := ops.foldl step init
 
@@ -222,18 +257,18 @@ def run (ops : List Op) : St := ops.foldl step init
 def flush (s : St) : St :=
   s.pending.foldl applyCleanup { s with pending := [] }
 
-/-! ### Restart from the file cache -/
+/-! ### The synchronisation protocol seen from the storage -/
 
-def fileCacheVersion : Nat := 15
+/-- What happens to the database over time: model operations, and `Refresh` calls whose storage
+request failed (no state change, but a request was sent). -/
+inductive Ev
+  | op (o : Op)
+  | failed (full : Bool)
 
-/-- `New` + `loadFileCache`: a fresh database filled from the cache file, unless the file is
-absent, has another version, or holds no profiles or no devices. -/
-def loadCache (version : Nat) (c : Option (List Profile × List Device)) : St :=
-  match c with
-  | none => init
-  | some pd =>
-    if version ≠ fileCacheVersion then { init with cache := c }
-    else if pd.1.length = 0 ∨ pd.2.length = 0 then { init with cache := c }
-    else { setAll init pd.1 pd.2 with cache := c }
+def stepEv (s : St) : Ev → St
+  | .op o => step s o
+  | .failed _ => s
+
+def runEv (evs : List Ev) : St := evs.foldl stepEv init
 
 end Agd.ProfileDB
